@@ -334,7 +334,8 @@ func (p *exprParser) parseUnary() (*Expr, error) {
 	}
 	if p.isOp("-") {
 		p.next()
-		e, err := p.parseUnary()
+		// unary minus binds looser than ^ : -2^62 is -(2^62), not (-2)^62 (which is positive)
+		e, err := p.parsePow()
 		if err != nil {
 			return nil, err
 		}
